@@ -290,6 +290,18 @@ func RunHTTPUpgrader(u ws.HTTPUpgrader, data []byte) (out []byte, hsk ws.Handsha
 	return conn.Out.Bytes(), hsk, err, false
 }
 
+// RunUpgradeHTTP is RunHTTPUpgrader through the package-level ws.UpgradeHTTP.
+func RunUpgradeHTTP(data []byte) (out []byte, hsk ws.Handshake, err error, skipped bool) {
+	req, perr := http.ReadRequest(bufio.NewReader(bytes.NewReader(data)))
+	if perr != nil {
+		return nil, hsk, nil, true
+	}
+	conn := &memConn{in: bytes.NewReader(nil)}
+	w := &hijackWriter{conn: conn, header: http.Header{}}
+	_, _, hsk, err = ws.UpgradeHTTP(req, w)
+	return conn.Out.Bytes(), hsk, err, false
+}
+
 // RunUpgrader runs ws.Upgrader over an in-memory connection.
 func RunUpgrader(u ws.Upgrader, src io.Reader) (out []byte, hsk ws.Handshake, err error) {
 	var buf bytes.Buffer
